@@ -317,7 +317,7 @@ func DecryptWrappedRegistrationInfo(ctx context.Context, reqInfo *types.FetchNod
 		return nil, fmt.Errorf("(%s) %s", op, err.Error())
 	}
 
-	registrationInfoBytes, err := opts.WithRegistrationWrapper.Decrypt(ctx, blobInfo)
+	registrationInfoBytes, err := decryptWithRegistrationWrapper(ctx, opts.WithRegistrationWrapper, blobInfo)
 	if err != nil {
 		err := fmt.Errorf("error decrypting encrypted wrapped registration info: %w", err)
 		opts.WithLogger.Error(err.Error(), "op", op)
@@ -332,4 +332,18 @@ func DecryptWrappedRegistrationInfo(ctx context.Context, reqInfo *types.FetchNod
 	}
 
 	return registrationInfo, nil
+}
+
+// decryptWithRegistrationWrapper calls the wrapper's Decrypt function. The blob
+// comes straight from the remote peer's request and some wrapper
+// implementations panic on malformed values (e.g. a ciphertext too short to
+// contain a nonce) instead of returning an error; since this runs while
+// handling a connection, turn such a panic into an error.
+func decryptWithRegistrationWrapper(ctx context.Context, wrapper wrapping.Wrapper, blobInfo *wrapping.BlobInfo) (pt []byte, err error) {
+	defer func() {
+		if r := recover(); r != nil {
+			pt, err = nil, fmt.Errorf("registration wrapper could not process the wrapped value: %v", r)
+		}
+	}()
+	return wrapper.Decrypt(ctx, blobInfo)
 }
